@@ -12,8 +12,8 @@ if [ "${SEEDS_IN_REPO:-}" = 1 ]; then WT=/repo; else
 fi
 miss=0
 for n in $names; do
-  prop=$(python3 -c "import json;print(json.load(open('seeded/$n/meta.json'))['property'])")
-  c=$(echo $prop | tr 'C' 'c')
+  # the check recorded as catching it (normally the one of its property)
+  c=$(python3 -c "import json;m=json.load(open('seeded/$n/meta.json'));r=[x for x in m.get('checks_run',[]) if x.startswith('c')];print(r[0] if r else m['property'].lower())")
   if ! git -C "$WT" apply --check "$PWD/seeded/$n/patch.diff" 2>/dev/null; then echo "$n: PATCH DOES NOT APPLY (needs rebase)"; miss=1; continue; fi
   git -C "$WT" apply "$PWD/seeded/$n/patch.diff"
   out=$(VERIF_REPO="$WT" ./vcheck run $c quick 2>&1); rc=$?
